@@ -107,6 +107,7 @@ def model_default_state():
 class UnitSpec(Spec):
     prop = 'C04'
     name = 'unit'
+    case_timeout = 900          # one long case: the whole fixpoint search
     title = 'explicit-state search over the real RuntimeState to fixpoint'
     rule = ('states are reachable implementation states (all instance attributes of RuntimeState); every '
             'event of the directive alphabet (block/inline x 16 directives + 3 two-directive lines + no '
